@@ -363,8 +363,9 @@ Section Proofs.
     all: try exact Hsl.
     all: try (destruct (slot s) as [t0|] eqn:Es; [|exact Hsl]).
     all: try match goal with
-      | Hx : (exists th0, threads _ ?t0 = Some th0 /\ HolderInv _ th0) |- _ =>
+      | Hx : ex _ |- _ =>
         destruct Hx as (th0 & Hth0 & Hh0);
+        match type of Hth0 with threads _ ?t0 = _ =>
         assert (t0 <> t) by
           (intro Heq; destruct (HB2 _ eq_refl) as (thx & Hxx & Hhx); rewrite Heq, Eth in Hxx; inversion Hxx; subst thx;
            match goal with E : t_pc _ = _ |- _ => rewrite E in Hhx end; discriminate Hhx);
@@ -372,8 +373,684 @@ Section Proofs.
           (destruct (le_lt_dec (next_tid s) t0); [rewrite HA in Hth0 by assumption; discriminate|assumption]);
         exists th0; split; [rewrite ?upd_other by (first [assumption|lia]); exact Hth0|];
         apply (HolderInv_frame s); [reflexivity..|exact Hh0]
+        end
       end.
     all: try (eexists; split; [apply upd_same|]; unfold HolderInv; cbn; exact Hsl).
-    all: match goal with |- ?G => idtac G end.
+  Qed.
+
+  Lemma wf_recb_spec r : wf_recb r = true -> wf_rec r.
+  Proof. unfold wf_recb, wf_rec. destruct (r_time r); [apply Z.ltb_lt|auto]. Qed.
+
+  Lemma forallb_wf_src outs : forallb wf_srcb outs = true -> Forall wf_src outs.
+  Proof.
+    induction outs as [|o outs IH]; cbn; [constructor|]. intro H. apply andb_prop in H as [Ho Hr].
+    constructor; [|apply IH, Hr]. destruct o as [l| |]; cbn in *; auto.
+    induction l as [|pr l IHl]; cbn in *; [constructor|]. apply andb_prop in Ho as [H1 H2].
+    constructor; [apply wf_recb_spec, H1|apply IHl, H2].
+  Qed.
+
+  Lemma forallb_wf_fetch outs : forallb wf_fetchb outs = true -> Forall wf_fetch outs.
+  Proof.
+    induction outs as [|o outs IH]; cbn; [constructor|]. intro H. apply andb_prop in H as [Ho Hr].
+    constructor; [|apply IH, Hr]. destruct o as [r| |]; cbn in *; auto. apply wf_recb_spec, Ho.
+  Qed.
+
+  Lemma miss_entry_seq a b now outs : st_seq a = st_seq b -> miss_entry a now outs = miss_entry b now outs.
+  Proof. intro H. unfold C06_PCache.miss_entry. rewrite H. reflexivity. Qed.
+
+  (* common preamble of the holder lemmas *)
+  Lemma holder_facts s t th :
+    InvA s -> InvC s -> threads s t = Some th -> holding (t_pc th) = true ->
+    slot s = Some t /\ HolderInv s th /\
+    heap s !! (readp s).1 = Some (st_rm (cur s)) /\ heap s !! (readp s).2 = Some (st_ru (cur s)).
+  Proof.
+    intros (HA & HB1 & HB2) (C0 & C1 & C2 & C3 & G1 & G2 & G3 & Hsl) Eth Hh.
+    pose proof (HB1 t th Eth Hh) as Hslot. rewrite Hslot in Hsl.
+    destruct Hsl as (th0 & Hth0 & Hh0). rewrite Eth in Hth0. inversion Hth0; subst th0.
+    destruct (cur_objects s C1 C2). auto.
+  Qed.
+
+  (* a holder step that leaves the published world alone: only its private objects,
+     pc.write, pc.seq and its own thread record change *)
+  Lemma InvC_private_step s s' t th' x :
+    InvC s -> slot s' = Some t -> threads s' t = Some th' ->
+    hist s' = hist s -> cur s' = cur s -> readp s' = readp s ->
+    next_id s <= next_id s' ->
+    (forall id, next_id s' <= id -> heap s' !! id = None) ->
+    (priv s x \/ next_id s <= x) ->
+    (forall id, id <> x -> heap s' !! id = heap s !! id) ->
+    HolderInv s' th' -> InvC s'.
+  Proof.
+    intros HC Hsl Hth Hh Hc Hr Hn Hfresh Hx Hch Hinv.
+    pose proof HC as (_ & C1 & _).
+    apply (InvC_intro s); auto.
+    - intros v st mid uid Hv. destruct (C1 v st mid uid Hv) as (_ & _ & Lm & Lu).
+      assert (mid <> x /\ uid <> x) as [N1 N2].
+      { destruct Hx as [[_ Hp]|Hge]; [destruct (Hp v st mid uid Hv); split; congruence|split; lia]. }
+      split; apply Hch; assumption.
+    - rewrite Hsl. eauto.
+  Qed.
+
+  Ltac holder_pre s t th :=
+    intros HAA HP HC Eth Hpc Hs;
+    destruct (holder_facts s t th HAA HC Eth ltac:(rewrite Hpc; reflexivity)) as (Hslot & HI & Hrm & Hru);
+    pose proof (HP t th Eth) as Hcall; unfold pc_call_ok in Hcall; rewrite Hpc in Hcall;
+    unfold HolderInv in HI; rewrite Hpc in HI; cbn zeta in HI;
+    unfold C07_PCacheConc.step_thread in Hs; cbn zeta in Hs; rewrite Hpc in Hs.
+
+  (* the step keeps the heap and the slot: only the holder's record, pc.write, pc.seq move *)
+  Ltac keep_heap s t :=
+    eapply (InvC_private_step s _ t _ (next_id s));
+    [ eassumption | cbn; try eassumption; try reflexivity | cbn; apply upd_same
+    | reflexivity | reflexivity | reflexivity | cbn; lia
+    | cbn; match goal with HC : InvC _ |- _ => apply HC end
+    | right; lia | intros; reflexivity | ].
+
+  (* the step releases the slot *)
+  Ltac release_slot s :=
+    apply (InvC_intro s);
+    [ eassumption | reflexivity | reflexivity | reflexivity | cbn; lia
+    | cbn; match goal with HC : InvC _ |- _ => apply HC end
+    | intros; split; reflexivity | cbn ].
+
+  Lemma step_RRecheck s s' t th e c :
+    InvA s -> InvP s -> InvC s -> threads s t = Some th -> t_pc th = RRecheck c ->
+    step_thread s t th e = Some s' -> InvC s'.
+  Proof.
+    holder_pre s t th. destruct e; try discriminate Hs.
+    destruct (Nat.eqb (refreshes s) c); unfold goto in Hs; inversion Hs; subst; clear Hs.
+    - keep_heap s t. unfold HolderInv; cbn. exact HI.
+    - release_slot s. exact HI.
+  Qed.
+
+  Lemma step_RCollect s s' t th e :
+    InvA s -> InvP s -> InvC s -> threads s t = Some th -> t_pc th = RCollect ->
+    step_thread s t th e = Some s' -> InvC s'.
+  Proof.
+    holder_pre s t th. destruct e; try discriminate Hs.
+    destruct (forallb wf_srcb outs) eqn:Ewf; [|discriminate Hs].
+    apply forallb_wf_src in Ewf. destruct HI as [Hq Hw].
+    inversion Hs; subst; clear Hs.
+    keep_heap s t.
+    unfold HolderInv, walked; cbn. rewrite <- Hq, <- Hw.
+    destruct ((walk (pc_seq s + 1) outs (pc_write s) 0).1.2) eqn:Eb; cbn; rewrite ?Eb; split_and!; auto.
+  Qed.
+
+  Lemma step_MStored s s' t th e :
+    InvA s -> InvP s -> InvC s -> threads s t = Some th -> t_pc th = MStored ->
+    step_thread s t th e = Some s' -> InvC s'.
+  Proof.
+    holder_pre s t th. destruct e; try discriminate Hs.
+    destruct HI as [Hq Hw].
+    rewrite (obj_some _ _ _ Hrm), (obj_some _ _ _ Hru) in Hs.
+    match type of Hs with
+    | match ?x with Some _ => match ?y with Some _ => _ | None => _ end | None => _ end = _ =>
+      destruct x eqn:Ew; [destruct y eqn:Ev|]
+    end; unfold goto in Hs; inversion Hs; subst; clear Hs; keep_heap s t;
+      unfold HolderInv, conc_eq, miss_path; cbn; rewrite <- ?Hw, ?Ew; auto.
+    all: try (split; [auto|]; exact Ev).
+    all: try (split; [split; auto|]).
+    all: try (assert (Hv0 : view (cur s) (call_pid (t_call th)) = None) by exact Ev; rewrite Hv0; exact I).
+  Qed.
+
+  Lemma step_MReleaseHit s s' t th e v :
+    InvA s -> InvP s -> InvC s -> threads s t = Some th -> t_pc th = MReleaseHit v ->
+    step_thread s t th e = Some s' -> InvC s'.
+  Proof.
+    holder_pre s t th. destruct e; try discriminate Hs. inversion Hs; subst; clear Hs.
+    release_slot s. apply HI.
+  Qed.
+
+  Lemma step_MFetch s s' t th e :
+    InvA s -> InvP s -> InvC s -> threads s t = Some th -> t_pc th = MFetch ->
+    step_thread s t th e = Some s' -> InvC s'.
+  Proof.
+    holder_pre s t th. destruct e; try discriminate Hs.
+    - destruct (forallb wf_fetchb outs) eqn:Ewf; [|discriminate Hs].
+      apply forallb_wf_fetch in Ewf. inversion Hs; subst; clear Hs.
+      keep_heap s t. unfold HolderInv; cbn. destruct HI. auto.
+    - unfold goto in Hs. inversion Hs; subst; clear Hs. release_slot s. apply HI.
+  Qed.
+
+  Lemma is_refresh_get th :
+    match t_call th with CGet _ | CGetResults _ => True | _ => False end -> is_refresh th = false.
+  Proof. unfold is_refresh. destruct (t_call th); tauto. Qed.
+
+  Lemma step_MInsert s s' t th e :
+    InvA s -> InvP s -> InvC s -> threads s t = Some th -> t_pc th = MInsert ->
+    step_thread s t th e = Some s' -> InvC s'.
+  Proof.
+    holder_pre s t th. destruct e; try discriminate Hs. inversion Hs; subst; clear Hs.
+    destruct HI as ([Hq Hw] & Hmp & Hwf). apply is_refresh_get in Hcall.
+    keep_heap s t.
+    unfold HolderInv, path_ok, plan, is_refresh in *; cbn. rewrite Hcall. cbn.
+    split_and!; auto.
+    rewrite Hw. f_equal. apply miss_entry_seq. exact Hq.
+  Qed.
+
+  Lemma step_TAdd s s' t th e :
+    InvA s -> InvP s -> InvC s -> threads s t = Some th -> t_pc th = TAdd ->
+    step_thread s t th e = Some s' -> InvC s'.
+  Proof.
+    holder_pre s t th. destruct e; try discriminate Hs. unfold goto in Hs. inversion Hs; subst; clear Hs.
+    keep_heap s t. unfold HolderInv; cbn. exact HI.
+  Qed.
+
+  Lemma step_TRelease s s' t th e :
+    InvA s -> InvP s -> InvC s -> threads s t = Some th -> t_pc th = TRelease ->
+    step_thread s t th e = Some s' -> InvC s'.
+  Proof.
+    holder_pre s t th. destruct e; try discriminate Hs. unfold goto in Hs. inversion Hs; subst; clear Hs.
+    release_slot s. exact HI.
+  Qed.
+
+  Lemma hist_ids_lt s v st mid uid :
+    InvC s -> hist s !! v = Some (st, mid, uid) -> mid < next_id s /\ uid < next_id s.
+  Proof. intros (_ & C1 & _) Hv. destruct (C1 v st mid uid Hv) as (_ & _ & A & B). auto. Qed.
+
+  Lemma priv_fresh s : InvC s ->
+    S (next_id s) > next_id s /\
+    forall v st mid uid, hist s !! v = Some (st, mid, uid) -> next_id s <> mid /\ next_id s <> uid.
+  Proof.
+    intro HC. split; [lia|]. intros v st mid uid Hv.
+    destruct (hist_ids_lt s v st mid uid HC Hv). lia.
+  Qed.
+
+  (* allocation of a fresh object by the holder *)
+  Ltac alloc_step s t :=
+    eapply (InvC_private_step s _ t _ (next_id s));
+    [ eassumption | cbn; try eassumption; try reflexivity | cbn; apply upd_same
+    | reflexivity | reflexivity | reflexivity | cbn; lia
+    | cbn; intros id Hid; rewrite lookup_insert_ne by lia;
+      match goal with HC : InvC _ |- _ => apply HC end; lia
+    | right; lia
+    | cbn; intros id Hid; rewrite lookup_insert_ne by congruence; reflexivity | ].
+
+  (* mutation of a private object by the holder *)
+  Ltac mutate_step s t x Hpriv :=
+    eapply (InvC_private_step s _ t _ x);
+    [ eassumption | cbn; try eassumption; try reflexivity | cbn; apply upd_same
+    | reflexivity | reflexivity | reflexivity | cbn; lia
+    | cbn; intros id Hid; rewrite lookup_insert_ne by (destruct Hpriv; lia);
+      match goal with HC : InvC _ |- _ => apply HC end; lia
+    | left; exact Hpriv
+    | cbn; intros id Hid; rewrite lookup_insert_ne by congruence; reflexivity | ].
+
+  Lemma step_RCopy s s' t th e :
+    InvA s -> InvP s -> InvC s -> threads s t = Some th -> t_pc th = RCopy ->
+    step_thread s t th e = Some s' -> InvC s'.
+  Proof.
+    holder_pre s t th. destruct e; try discriminate Hs. inversion Hs; subst; clear Hs.
+    destruct HI as (Hwf & Hq & Hw & Hb). destruct (priv_fresh s HC) as [P1 P2].
+    alloc_step s t.
+    unfold HolderInv, walked, priv in *; cbn. rewrite lookup_insert, (obj_some _ _ _ Hru).
+    split_and!; auto.
+  Qed.
+
+  Lemma step_MCopy s s' t th e :
+    InvA s -> InvP s -> InvC s -> threads s t = Some th -> t_pc th = MCopy ->
+    step_thread s t th e = Some s' -> InvC s'.
+  Proof.
+    holder_pre s t th. destruct e; try discriminate Hs. inversion Hs; subst; clear Hs.
+    destruct HI as (Hpath & Hq & Hw). destruct (priv_fresh s HC) as [P1 P2].
+    alloc_step s t.
+    unfold HolderInv, path_ok, plan, walked, is_refresh, priv in *; cbn. rewrite lookup_insert, (obj_some _ _ _ Hru).
+    split_and!; auto.
+  Qed.
+
+  Lemma step_RFill s s' t th e :
+    InvA s -> InvP s -> InvC s -> threads s t = Some th -> t_pc th = RFill ->
+    step_thread s t th e = Some s' -> InvC s'.
+  Proof.
+    holder_pre s t th. destruct e; try discriminate Hs. inversion Hs; subst; clear Hs.
+    destruct HI as (Hwf & Hq & Hw & Hb & Hu & Hm & Hpriv).
+    mutate_step s t (l_upd th) Hpriv.
+    unfold HolderInv, tail_inv, path_ok, plan, walked, priv, is_refresh in *; cbn.
+    rewrite lookup_insert, (obj_some _ _ _ Hu), Hq, Hw.
+    destruct (t_call th); try discriminate Hcall; cbn; split_and!; auto; apply Hpriv.
+  Qed.
+
+  Lemma step_MFill s s' t th e :
+    InvA s -> InvP s -> InvC s -> threads s t = Some th -> t_pc th = MFill ->
+    step_thread s t th e = Some s' -> InvC s'.
+  Proof.
+    holder_pre s t th. destruct e; try discriminate Hs. unfold goto in Hs. inversion Hs; subst; clear Hs.
+    destruct HI as (Hpath & Hq & Hw & Hu & Hm & Hpriv). apply is_refresh_get in Hcall.
+    mutate_step s t (l_upd th) Hpriv.
+    unfold HolderInv, tail_inv, path_ok, plan, walked, priv, is_refresh in *; cbn.
+    rewrite lookup_insert, (obj_some _ _ _ Hu).
+    destruct (t_call th); try discriminate Hcall; cbn in *;
+      rewrite (miss_entry_seq (State (pc_seq s) (pc_write s) ∅ ∅) (cur s) _ _ Hq);
+      split_and!; auto; first [apply Hpath | apply Hpriv].
+  Qed.
+
+  Lemma plan_set_pc th p c : plan (set_pc th p) c = plan th c.
+  Proof. reflexivity. Qed.
+  Lemma path_ok_set_pc th p c : path_ok (set_pc th p) c = path_ok th c.
+  Proof. reflexivity. Qed.
+
+  Lemma tail_inv_set_pc s th p : tail_inv s th -> tail_inv s (set_pc th p).
+  Proof. exact (fun H => H). Qed.
+
+  Lemma step_TDecide s s' t th e :
+    InvA s -> InvP s -> InvC s -> threads s t = Some th -> t_pc th = TDecide ->
+    step_thread s t th e = Some s' -> InvC s'.
+  Proof.
+    holder_pre s t th. destruct e; try discriminate Hs.
+    pose proof HI as (Hpath & Hq & Hw & Hu & Hm & Hpriv).
+    rewrite (obj_some _ _ _ Hu) in Hs. rewrite Hm, (obj_some _ _ _ Hrm) in Hs.
+    match type of Hs with (if ?c then _ else _) = _ => destruct c eqn:Enm end;
+      unfold goto in Hs; inversion Hs; subst; clear Hs; keep_heap s t;
+      unfold HolderInv; cbn; (split; [exact HI|exact Enm]).
+  Qed.
+
+  Lemma step_TAllocM s s' t th e :
+    InvA s -> InvP s -> InvC s -> threads s t = Some th -> t_pc th = TAllocM ->
+    step_thread s t th e = Some s' -> InvC s'.
+  Proof.
+    holder_pre s t th. destruct e; try discriminate Hs. inversion Hs; subst; clear Hs.
+    destruct HI as ((Hpath & Hq & Hw & Hu & Hm & Hpriv) & Hwm). destruct (priv_fresh s HC) as [P1 P2].
+    alloc_step s t.
+    unfold HolderInv, tail_inv, priv in *; cbn.
+    change (plan _ (cur s)) with (plan th (cur s)). change (path_ok _ (cur s)) with (path_ok th (cur s)).
+    change (wants_merge _ (cur s)) with (wants_merge th (cur s)).
+    rewrite lookup_insert_ne by (destruct Hpriv; lia).
+    destruct Hpriv as [Hlt Hp]. split_and!; auto; lia.
+  Qed.
+
+  Lemma step_TFillM s s' t th e :
+    InvA s -> InvP s -> InvC s -> threads s t = Some th -> t_pc th = TFillM ->
+    step_thread s t th e = Some s' -> InvC s'.
+  Proof.
+    holder_pre s t th. destruct e; try discriminate Hs. unfold goto in Hs. inversion Hs; subst; clear Hs.
+    destruct HI as ((Hpath & Hq & Hw & Hu & Hm & Hpriv) & Hwm & Hprivm & Hne).
+    mutate_step s t (l_m th) Hprivm.
+    unfold HolderInv, tail_inv, priv in *; cbn.
+    change (plan _ (cur s)) with (plan th (cur s)). change (path_ok _ (cur s)) with (path_ok th (cur s)).
+    change (wants_merge _ (cur s)) with (wants_merge th (cur s)).
+    rewrite lookup_insert, lookup_insert_ne by congruence.
+    rewrite (obj_some _ _ _ Hu), Hm, (obj_some _ _ _ Hrm), Hw.
+    split_and!; auto; first [apply Hpriv | apply Hprivm].
+  Qed.
+
+  Lemma seq_apply_sound th c :
+    Inv c -> Inv2 c ->
+    (if is_refresh th then Forall wf_src (l_outs th) else Forall wf_fetch (l_fouts th)) ->
+    Inv (seq_apply need_merge ttl th c) /\ Inv2 (seq_apply need_merge ttl th c) /\
+    vmono c (seq_apply need_merge ttl th c).
+  Proof.
+    intros HI H2 Hwf. unfold seq_apply, is_refresh in *.
+    destruct (t_call th); cbn [call_pid].
+    1-4: (split_and!; [apply Inv_fetch_missing; assumption
+                      |eapply (fetch_missing_visible_monotone need_merge ttl c); assumption
+                      |intros q r r'; eapply (fetch_missing_visible_monotone need_merge ttl c); assumption]).
+    all: (split_and!; [apply Inv_refresh; assumption
+                      |eapply (refresh_visible_monotone need_merge ttl c); assumption
+                      |intros q r r'; eapply (refresh_visible_monotone need_merge ttl c); assumption]).
+  Qed.
+
+  Lemma vmono_same_view a a' b :
+    st_rm a = st_rm a' -> st_ru a = st_ru a' -> vmono a' b -> vmono a b.
+  Proof.
+    intros Hm Hu H pid r r' Hv. apply H. unfold visible, view in *. rewrite <- Hm, <- Hu. exact Hv.
+  Qed.
+
+  Lemma step_RReleaseCancelled s s' t th e :
+    InvA s -> InvP s -> InvC s -> threads s t = Some th -> t_pc th = RReleaseCancelled ->
+    step_thread s t th e = Some s' -> InvC s'.
+  Proof.
+    holder_pre s t th. destruct e; try discriminate Hs. unfold goto in Hs. inversion Hs; subst; clear Hs.
+    destruct HI as (Hwf & Hq & Hw & Hb).
+    pose proof HC as (C0 & C1 & C2 & C3 & G1 & G2 & G3 & _).
+    assert (Hwfs : if is_refresh th then Forall wf_src (l_outs th) else Forall wf_fetch (l_fouts th)) by (rewrite Hcall; exact Hwf).
+    destruct (seq_apply_sound th (cur s) G1 G2 Hwfs) as (I1 & I2 & _).
+    pose proof (seq_apply_cancelled th (cur s) Hcall Hb) as Hsa.
+    unfold InvC, hist_ok, last_ok, conc_eq; cbn. rewrite Hsa. cbn.
+    split_and!; auto.
+    - rewrite <- Hsa. exact I1.
+    - rewrite <- Hsa. exact I2.
+  Qed.
+
+  Lemma step_TStore s s' t th e b :
+    InvA s -> InvP s -> InvC s -> threads s t = Some th -> t_pc th = TStore b ->
+    step_thread s t th e = Some s' -> InvC s'.
+  Proof.
+    holder_pre s t th. destruct e; try discriminate Hs. inversion Hs; subst; clear Hs.
+    pose proof HC as (C0 & C1 & C2 & C3 & G1 & G2 & G3 & _).
+    assert (Htail : tail_inv s th) by (destruct b; apply HI).
+    destruct Htail as (Hpath & Hq & Hw & Hu & Hm & Hpriv).
+    assert (Hwfs : if is_refresh th then Forall wf_src (l_outs th) else Forall wf_fetch (l_fouts th)).
+    { unfold path_ok in Hpath. destruct (is_refresh th); apply Hpath. }
+    destruct (seq_apply_sound th (cur s) G1 G2 Hwfs) as (I1 & I2 & I3).
+    pose proof (seq_apply_plan th (cur s) Hpath) as Hsa.
+    set (c' := seq_apply need_merge ttl th (cur s)) in *.
+    destruct (finish_fields (plan th (cur s)).1.1 (plan th (cur s)).1.2 (plan th (cur s)).2 (st_rm (cur s)))
+      as (Fq & Fw & Fnm & Fm). rewrite <- Hsa in Fq, Fw, Fnm, Fm.
+    destruct (C1 0 init 0 0 C0) as (H00 & _ & L0 & _).
+    assert (Hlen : 0 < length (hist s)) by (apply lookup_lt_Some in C0; exact C0).
+    (* the objects the new pointer refers to hold the new sequential snapshot *)
+    assert (Hnew : let p := if b then (l_m th, 0) else (l_mid th, l_upd th) in
+                   heap s !! p.1 = Some (st_rm c') /\ heap s !! p.2 = Some (st_ru c') /\
+                   p.1 < next_id s /\ p.2 < next_id s).
+    { destruct b; cbn.
+      - destruct HI as (_ & Hwm & Hprivm & Hne & Hhm). destruct (Fm Hwm) as [-> ->].
+        split_and!; [exact Hhm|exact H00|apply Hprivm|exact L0].
+      - destruct HI as (_ & Hwm). destruct (Fnm Hwm) as [-> ->].
+        rewrite Hm. split_and!; [exact Hrm|exact Hu| |apply Hpriv].
+        destruct C2 as (h0 & st & Hl & _). destruct (C1 (length h0) st (readp s).1 (readp s).2) as (_ & _ & A & _); [|exact A].
+        rewrite Hl, lookup_app_r by lia. replace (length h0 - length h0) with 0 by lia. reflexivity. }
+    cbn zeta in Hnew. destruct Hnew as (N1 & N2 & N3 & N4).
+    unfold InvC; cbn. fold c'.
+    split_and!.
+    - rewrite lookup_app_l by exact Hlen. exact C0.
+    - intros v st mid uid Hv. apply lookup_app_Some in Hv as [Hv|[Hge Hv]].
+      + exact (C1 v st mid uid Hv).
+      + destruct (v - length (hist s)) eqn:Ev; cbn in Hv; [|discriminate]. inversion Hv; subst. auto.
+    - exists (hist s), c'. cbn. auto.
+    - exact C3.
+    - exact I1.
+    - exact I2.
+    - intros i a b0 Ha Hb.
+      apply lookup_app_Some in Hb as [Hb|[Hge Hb]].
+      + assert (Ha' : hist s !! i = Some a).
+        { apply lookup_app_Some in Ha as [Ha|[Hge' _]]; [exact Ha|]. apply lookup_lt_Some in Hb. lia. }
+        exact (G3 i a b0 Ha' Hb).
+      + destruct (S i - length (hist s)) eqn:Ev; cbn in Hb; [|discriminate]. inversion Hb; subst b0. cbn.
+        assert (Hi : S i = length (hist s)) by lia.
+        rewrite lookup_app_l in Ha by lia.
+        destruct C2 as (h0 & st & Hl & Hrm' & Hru'). rewrite Hl in Ha, Hi. rewrite app_length in Hi. cbn in Hi.
+        rewrite lookup_app_r in Ha by lia. replace (i - length h0) with 0 in Ha by lia. inversion Ha; subst a. cbn.
+        eapply vmono_same_view; [exact Hrm'|exact Hru'|exact I3].
+    - rewrite Hslot. eexists. split; [apply upd_same|].
+      unfold HolderInv, conc_eq; cbn. fold c'.
+      destruct (t_call th); cbn; rewrite Fq, Fw; auto.
+  Qed.
+
+  Lemma InvC_step s l s' : InvA s -> InvP s -> InvC s -> stepf s l = Some s' -> InvC s'.
+  Proof.
+    intros HAA HP HC Hs. pose proof HAA as (HA & HB1 & HB2).
+    destruct l as [c after|[]|t e]; cbn in Hs.
+    - (* Spawn *)
+      assert (Hgen : forall th0, InvC (with_next_tid (with_threads s (upd (threads s) (next_tid s) th0)) (S (next_tid s)))).
+      { intro th0. apply (InvC_intro s); [exact HC|reflexivity..|cbn; lia|cbn; apply HC|intros; split; reflexivity|].
+        cbn. destruct HC as (_ & _ & _ & _ & _ & _ & _ & Hsl).
+        destruct (slot s) as [t0|]; [|exact Hsl]. destruct Hsl as (thh & Hth & Hh).
+        exists thh. split; [|apply (HolderInv_frame s); [reflexivity..|exact Hh]].
+        rewrite upd_other; [exact Hth|]. intro; subst. rewrite HA in Hth by lia. discriminate. }
+      destruct c; try discriminate;
+        (destruct (match after with Some t0 => _ | None => true end); [|discriminate]);
+        inversion Hs; subst; apply Hgen.
+    - destruct (auto_on s && armed s); [|discriminate]. inversion Hs; subst.
+      apply (InvC_intro s); [exact HC|reflexivity..|cbn; lia|cbn; apply HC|intros; split; reflexivity|].
+      cbn. destruct HC as (_ & _ & _ & _ & _ & _ & _ & Hsl).
+      destruct (slot s) as [t0|]; [|exact Hsl]. destruct Hsl as (thh & Hth & Hh).
+      exists thh. split; [exact Hth|apply (HolderInv_frame s); [reflexivity..|exact Hh]].
+    - destruct (threads s t) as [th|] eqn:Eth; [|discriminate].
+      destruct (holding (t_pc th)) eqn:Hh.
+      + destruct (t_pc th) eqn:Hpc; try discriminate Hh.
+        * eapply step_RRecheck; eauto.
+        * eapply step_RCollect; eauto.
+        * eapply step_RReleaseCancelled; eauto.
+        * eapply step_RCopy; eauto.
+        * eapply step_RFill; eauto.
+        * eapply step_MStored; eauto.
+        * eapply step_MReleaseHit; eauto.
+        * eapply step_MFetch; eauto.
+        * eapply step_MInsert; eauto.
+        * eapply step_MCopy; eauto.
+        * eapply step_MFill; eauto.
+        * eapply step_TDecide; eauto.
+        * eapply step_TAllocM; eauto.
+        * eapply step_TFillM; eauto.
+        * eapply step_TStore; eauto.
+        * eapply step_TAdd; eauto.
+        * eapply step_TRelease; eauto.
+      + eapply InvC_nonholder; eauto.
+  Qed.
+
+  Definition Inv1 (s : gst) : Prop := InvA s /\ InvP s /\ InvC s.
+
+  Lemma Inv1_reachable s : reachable s -> Inv1 s.
+  Proof.
+    apply LTS.invariant_reachable.
+    - split_and!; [apply InvA_init|apply InvP_init|apply InvC_init].
+    - intros s0 l s1 (A & P & C) Hs. split_and!;
+        [eapply InvA_step|eapply InvP_step|eapply InvC_step]; eauto.
+  Qed.
+
+  (* ---------------------------------------------------------------- *)
+  (* the history only grows, and only by a Store, which leaves the heap alone *)
+
+  Lemma step_hist_heap s l s' :
+    stepf s l = Some s' ->
+    (hist s' = hist s) \/ (heap s' = heap s /\ exists x, hist s' = hist s ++ [x]).
+  Proof.
+    intro Hs. destruct l as [c after|[]|t e]; cbn in Hs.
+    - destruct c; try discriminate;
+        (destruct (match after with Some t0 => _ | None => true end); [|discriminate]);
+        inversion Hs; subst; left; reflexivity.
+    - destruct (auto_on s && armed s); [|discriminate]. inversion Hs; subst. left; reflexivity.
+    - destruct (threads s t) as [th|] eqn:Eth; [|discriminate].
+      inv_step Hs; cbn; first [left; reflexivity | right; split; [reflexivity|eexists; reflexivity]].
+  Qed.
+
+  Lemma step_hist_lookup s l s' v x :
+    stepf s l = Some s' -> hist s !! v = Some x -> hist s' !! v = Some x.
+  Proof.
+    intros Hs Hv. destruct (step_hist_heap s l s' Hs) as [->|[_ [y ->]]]; [exact Hv|].
+    rewrite lookup_app_l; [exact Hv|]. apply lookup_lt_Some in Hv. exact Hv.
+  Qed.
+
+  Lemma step_cur_ver s l s' : stepf s l = Some s' -> cur_ver s <= cur_ver s'.
+  Proof.
+    intro Hs. unfold cur_ver. destruct (step_hist_heap s l s' Hs) as [->|[_ [y ->]]]; [lia|].
+    rewrite app_length. cbn. lia.
+  Qed.
+
+  (* THEOREM published_maps_immutable *)
+  Theorem published_maps_immutable_l s l s' :
+    reachable s -> stepf s l = Some s' ->
+    forall v st mid uid, hist s' !! v = Some (st, mid, uid) ->
+      heap s' !! mid = heap s !! mid /\ heap s' !! uid = heap s !! uid /\
+      heap s' !! mid = Some (st_rm st) /\ heap s' !! uid = Some (st_ru st).
+  Proof.
+    intros Hr Hs v st mid uid Hv.
+    destruct (Inv1_reachable s Hr) as (HA & HP & HC).
+    assert (HC' : InvC s') by (eapply InvC_step; eauto).
+    destruct HC' as (_ & C1' & _). destruct (C1' v st mid uid Hv) as (A' & B' & _).
+    destruct (step_hist_heap s l s' Hs) as [E|[E [x Hx]]].
+    - rewrite E in Hv. destruct HC as (_ & C1 & _). destruct (C1 v st mid uid Hv) as (A & B & _).
+      split_and!; [etransitivity; [exact A'|symmetry; exact A]|etransitivity; [exact B'|symmetry; exact B]|exact A'|exact B'].
+    - rewrite E in *. auto.
+  Qed.
+
+  (* ---------------------------------------------------------------- *)
+  (* Layer 3: what readers hold and return                              *)
+
+  Definition ReaderInv (s : gst) (th : thread) : Prop :=
+    let pid := call_pid (t_call th) in
+    l_born th <= cur_ver s /\
+    match t_pc th with
+    | GLookupU | LBuild | NCount =>
+      exists st, hist s !! l_ver th = Some (st, l_mid th, l_uid th) /\ l_born th <= l_ver th
+    | GLookupM =>
+      exists st, hist s !! l_ver th = Some (st, l_mid th, l_uid th) /\ l_born th <= l_ver th /\
+                 st_ru st !! pid = None
+    | GCas v | Fin (ResGet v) =>
+      exists st mid uid, hist s !! l_ver th = Some (st, mid, uid) /\ view st pid = Some v /\
+                         l_born th <= l_ver th
+    | TRelease =>
+      is_refresh th = false ->
+      exists st mid uid, hist s !! l_ver th = Some (st, mid, uid) /\
+        view st pid = Some (e_prov (miss_entry (cur s) (l_now th) (l_fouts th))) /\ l_born th <= l_ver th
+    | Fin (ResList l) =>
+      exists st mid uid, hist s !! l_ver th = Some (st, mid, uid) /\ l = listing st /\ l_born th <= l_ver th
+    | Fin (ResLen n) =>
+      exists st mid uid, hist s !! l_ver th = Some (st, mid, uid) /\ n = len st /\ l_born th <= l_ver th
+    | _ => True
+    end.
+
+  Definition InvF (s : gst) : Prop :=
+    (forall t th, threads s t = Some th -> ReaderInv s th) /\
+    (forall t th t1, threads s t = Some th -> t_prev th = Some t1 ->
+       exists th1, threads s t1 = Some th1 /\ is_fin (t_pc th1) = true /\
+         (forall v, t_pc th1 = Fin (ResGet v) -> l_ver th1 <= l_born th)).
+
+  Lemma InvF_init : InvF (ginit auto).
+  Proof. split; intros; discriminate. Qed.
+
+  Lemma nonholder_keeps s t th e s' :
+    holding (t_pc th) = false -> step_thread s t th e = Some s' ->
+    cur s' = cur s /\ hist s' = hist s.
+  Proof. intros Hnh Hs. inv_step Hs; cbn in Hnh; try discriminate Hnh; split; reflexivity. Qed.
+
+  (* a thread that is not the one stepping keeps its reader invariant *)
+  Lemma ReaderInv_frame s l s' th :
+    stepf s l = Some s' -> (t_pc th = TRelease -> cur s' = cur s) ->
+    ReaderInv s th -> ReaderInv s' th.
+  Proof.
+    intros Hs Hcur [Hb HR]. pose proof (step_cur_ver s l s' Hs) as Hcv.
+    split; [lia|].
+    destruct (t_pc th) eqn:Epc; auto;
+      try (destruct HR as (st & Hv & Hr); exists st; split; [eapply step_hist_lookup; eauto|exact Hr]);
+      try (destruct HR as (st & mid & uid & Hv & Hr); exists st, mid, uid; split; [eapply step_hist_lookup; eauto|exact Hr]).
+    - intro Hir. destruct (HR Hir) as (st & mid & uid & Hv & Hr). exists st, mid, uid.
+      rewrite (Hcur eq_refl). split; [eapply step_hist_lookup; eauto|exact Hr].
+    - destruct r; auto;
+        (destruct HR as (st & mid & uid & Hv & Hr); exists st, mid, uid; split; [eapply step_hist_lookup; eauto|exact Hr]).
+  Qed.
+
+  Lemma last_entry s : InvC s ->
+    exists st, hist s !! cur_ver s = Some (st, (readp s).1, (readp s).2) /\
+               st_rm st = st_rm (cur s) /\ st_ru st = st_ru (cur s).
+  Proof.
+    intros (_ & _ & (h0 & st & Hl & Hm & Hu) & _). exists st. split; [|auto].
+    unfold cur_ver. rewrite Hl, app_length. cbn. rewrite lookup_app_r by lia.
+    replace (length h0 + 1 - 1 - length h0) with 0 by lia. reflexivity.
+  Qed.
+
+  Lemma view_same_maps a b pid : st_rm a = st_rm b -> st_ru a = st_ru b -> view a pid = view b pid.
+  Proof. unfold view. intros -> ->. reflexivity. Qed.
+
+  Definition special (p : pcs) : bool :=
+    match p with
+    | GLoad | LLoad | NLoad | GLookupU | GLookupM | GCas _ | LBuild | NCount
+    | MReleaseHit _ | TStore _ | TRelease => true
+    | _ => false
+    end.
+
+  Ltac own_pre s t th e s' :=
+    intros (HAA & HP & HC) [HF _] Eth Hpc Hs th' Hth';
+    pose proof (HF t th Eth) as [Hb HR]; rewrite Hpc in HR;
+    pose proof HC as (C0 & C1 & C2 & C3 & G1 & G2 & G3 & Hsl);
+    destruct (last_entry s HC) as (stl & Hlast & Hlm & Hlu);
+    assert (Hcv : cur_ver s <= cur_ver s')
+      by (apply (step_cur_ver s (Step t e)); cbn; rewrite Eth; exact Hs);
+    assert (Hlt : t < next_tid s)
+      by (destruct HAA as (HA & _); destruct (le_lt_dec (next_tid s) t) as [Hle|]; [|assumption];
+          rewrite HA in Eth by exact Hle; discriminate);
+    unfold C07_PCacheConc.step_thread in Hs; cbn zeta in Hs; rewrite Hpc in Hs.
+
+  Ltac own_new H x :=
+    cbn in H; rewrite ?upd_other in H by lia; rewrite upd_same in H;
+    inversion H; subst x; clear H; (split; [cbn in *; lia|]); cbn.
+
+  Lemma own_other s t th e s' :
+    Inv1 s -> InvF s -> threads s t = Some th -> special (t_pc th) = false ->
+    step_thread s t th e = Some s' ->
+    forall th', threads s' t = Some th' -> ReaderInv s' th'.
+  Proof.
+    intros (HAA & HP & HC) [HF _] Eth Hsp Hs th' Hth'.
+    pose proof (HF t th Eth) as [Hb HR].
+    assert (Hcv : cur_ver s <= cur_ver s')
+      by (apply (step_cur_ver s (Step t e)); cbn; rewrite Eth; exact Hs).
+    assert (Hlt : t < next_tid s)
+      by (destruct HAA as (HA & _); destruct (le_lt_dec (next_tid s) t) as [Hle|]; [|assumption];
+          rewrite HA in Eth by exact Hle; discriminate).
+    inv_step Hs; cbn in Hsp; try discriminate Hsp; own_new Hth' th'; try exact I;
+      try (intro Hir; change (is_refresh th = false) in Hir;
+           pose proof (HP t th Eth) as Hc; unfold pc_call_ok in Hc;
+           match goal with E : t_pc _ = _ |- _ => rewrite E in Hc end; congruence);
+      unfold refresh_end; destruct (t_call th); exact I.
+  Qed.
+
+  Lemma own_load s t th e s' :
+    Inv1 s -> InvF s -> threads s t = Some th ->
+    (t_pc th = GLoad \/ t_pc th = LLoad \/ t_pc th = NLoad) ->
+    step_thread s t th e = Some s' ->
+    forall th', threads s' t = Some th' -> ReaderInv s' th'.
+  Proof.
+    intros H1 HFF Eth Hpcs Hs th' Hth'.
+    destruct Hpcs as [Hpc|[Hpc|Hpc]]; revert H1 HFF Eth Hpc Hs th' Hth'; own_pre s t th e s';
+      (destruct e; try discriminate Hs); inversion Hs; subst; clear Hs.
+    all: own_new Hth' th'; (exists stl; split; [exact Hlast|lia]).
+  Qed.
+
+  Lemma hist_objs s v st mid uid :
+    InvC s -> hist s !! v = Some (st, mid, uid) ->
+    obj (heap s) mid = st_rm st /\ obj (heap s) uid = st_ru st.
+  Proof.
+    intros (_ & C1 & _) Hv. destruct (C1 v st mid uid Hv) as (A & B & _).
+    split; apply obj_some; assumption.
+  Qed.
+
+  Lemma own_GLookupU s t th e s' :
+    Inv1 s -> InvF s -> threads s t = Some th -> t_pc th = GLookupU ->
+    step_thread s t th e = Some s' ->
+    forall th', threads s' t = Some th' -> ReaderInv s' th'.
+  Proof.
+    own_pre s t th e s'. destruct e; try discriminate Hs.
+    destruct HR as (st & Hv & Hbv). destruct (hist_objs s _ _ _ _ HC Hv) as [Om Ou].
+    rewrite Ou in Hs.
+    match type of Hs with match ?x with _ => _ end = _ => destruct x eqn:Eu end; unfold goto in Hs; injection Hs as <-; own_new Hth' th'.
+    - exists st, (l_mid th), (l_uid th). split_and!; auto.
+      unfold view. rewrite view_of_lookup.
+      assert (E2 : st_ru st !! call_pid (t_call th) = Some o) by exact Eu. rewrite E2. reflexivity.
+    - exists st. auto.
+  Qed.
+
+  Lemma own_GLookupM s t th e s' :
+    Inv1 s -> InvF s -> threads s t = Some th -> t_pc th = GLookupM ->
+    step_thread s t th e = Some s' ->
+    forall th', threads s' t = Some th' -> ReaderInv s' th'.
+  Proof.
+    own_pre s t th e s'. destruct e; try discriminate Hs.
+    destruct HR as (st & Hv & Hbv & Hun). destruct (hist_objs s _ _ _ _ HC Hv) as [Om Ou].
+    rewrite Om in Hs.
+    match type of Hs with match ?x with _ => _ end = _ => destruct x eqn:Em end; unfold goto in Hs; injection Hs as <-; own_new Hth' th'.
+    - exists st, (l_mid th), (l_uid th). split_and!; auto.
+      unfold view. rewrite view_of_lookup, Hun. exact Em.
+    - exact I.
+  Qed.
+
+  Lemma own_GCas s t th e s' v :
+    Inv1 s -> InvF s -> threads s t = Some th -> t_pc th = GCas v ->
+    step_thread s t th e = Some s' ->
+    forall th', threads s' t = Some th' -> ReaderInv s' th'.
+  Proof.
+    own_pre s t th e s'. destruct e; try discriminate Hs.
+    destruct (auto_on s && needs s); unfold goto in Hs; injection Hs as <-; own_new Hth' th'; exact HR.
+  Qed.
+
+  Lemma own_LBuild s t th e s' :
+    Inv1 s -> InvF s -> threads s t = Some th -> t_pc th = LBuild ->
+    step_thread s t th e = Some s' ->
+    forall th', threads s' t = Some th' -> ReaderInv s' th'.
+  Proof.
+    own_pre s t th e s'. destruct e; try discriminate Hs.
+    destruct HR as (st & Hv & Hbv). destruct (hist_objs s _ _ _ _ HC Hv) as [Om Ou].
+    unfold goto in Hs; injection Hs as <-; own_new Hth' th'.
+    exists st, (l_mid th), (l_uid th). rewrite Om, Ou. split_and!; auto.
+  Qed.
+
+  Lemma own_NCount s t th e s' :
+    Inv1 s -> InvF s -> threads s t = Some th -> t_pc th = NCount ->
+    step_thread s t th e = Some s' ->
+    forall th', threads s' t = Some th' -> ReaderInv s' th'.
+  Proof.
+    own_pre s t th e s'. destruct e; try discriminate Hs.
+    destruct HR as (st & Hv & Hbv). destruct (hist_objs s _ _ _ _ HC Hv) as [Om Ou].
+    unfold goto in Hs; injection Hs as <-; own_new Hth' th'.
+    exists st, (l_mid th), (l_uid th). rewrite Om, Ou. split_and!; auto.
   Qed.
 End Proofs.
